@@ -7,6 +7,8 @@ pub struct Estimates {
     pub valid: bool,
     /// accesses recorded by the sketch since its last ageing, when the estimates were read
     pub increments: u64,
+    /// how often the sketch had aged when the estimates were read
+    pub resets: u64,
 }
 
 struct CommandEvents {
@@ -23,12 +25,19 @@ impl Exec {
             noise.pause();
             // push the harness's own still-buffered access records out of the (single) pool buffer with reads of a
             // saturated noise key, so that nothing but noise records can reach the sketch after the estimates were read
-            let key = NOISE_KEYS[0] as u64;
-            for _ in 0..(self.cfg.buf * self.cfg.pool + 1) { let _ = self.cache.get(&key); }
+            // (only a hit records an access: the flush counts hits, on whichever noise key is still held; if the noise keys
+            // have been evicted the buffer cannot be flushed and the estimates are not used)
+            let needed = self.cfg.buf * self.cfg.pool + 1;
+            let mut flushed = 0;
+            for attempt in 0..(3 * needed) {
+                let key = NOISE_KEYS[attempt % NOISE_KEYS.len()] as u64;
+                if self.cache.get(&key).is_some() { flushed += 1; if flushed >= needed { break; } }
+            }
+            let result = self.pre_read_estimates_quiescent(k).map(|mut estimates| { if flushed < needed { estimates.valid = false; } estimates });
+            if let Some(noise) = &self.noise { noise.resume(); }
+            return result;
         }
-        let result = self.pre_read_estimates_quiescent(k);
-        if let Some(noise) = &self.noise { noise.resume(); }
-        result
+        self.pre_read_estimates_quiescent(k)
     }
 
     fn pre_read_estimates_quiescent(&mut self, k: u8) -> Check<Estimates> {
@@ -47,7 +56,7 @@ impl Exec {
             (by_id, cache.verif_estimate(cache.verif_hash_of(&(k as u64))))
         }));
         match read {
-            Ok((by_id, incoming)) => { estimates.by_id = by_id; estimates.incoming = incoming; estimates.valid = true; estimates.increments = cache.verif_sketch_progress().0; }
+            Ok((by_id, incoming)) => { estimates.by_id = by_id; estimates.incoming = incoming; estimates.valid = true; estimates.increments = cache.verif_sketch_progress().0; estimates.resets = cache.verif_sketch_resets(); }
             Err(_) => { estimates.valid = false; }
         }
         Ok(estimates)
@@ -115,7 +124,8 @@ impl Exec {
             // with background readers, once the sketch has aged in this case their keys are no longer saturated and no longer
             // all in the first-access filter: their traffic moves counters and filter bits again, which can collide with
             // those of other keys; the estimates are not frozen any more
-            let aged = self.cache.verif_sketch_progress().0 < read.increments || (self.noise.is_some() && self.stats.sketch_resets > 0);
+            let resets = self.cache.verif_sketch_resets();
+            let aged = resets != read.resets || self.cache.verif_sketch_progress().0 < read.increments || (self.noise.is_some() && (resets > 0 || self.stats.sketch_resets > 0));
             if read.valid && aged { read.valid = false; self.stats.adjusted_ops += 1; }
         }
         // split the trace per executed command
